@@ -47,7 +47,7 @@ func genNanos() *rapid.Generator[int32] {
 
 func runC17(ctx *Ctx) {
 	per := func(q, th int) int { return ctx.N(q, th)/ctx.NShards + 1 }
-	ctx.CheckRapid("add", per(100000, 6000000), func(rt *rapid.T) *Case {
+	ctx.CheckRapid("add", per(1000000, 16000000), func(rt *rapid.T) *Case {
 		ts := genTSSeconds().Draw(rt, "ts")
 		tn := genNanos().Draw(rt, "tn")
 		var ds int64
@@ -76,14 +76,14 @@ func runC17(ctx *Ctx) {
 		return &Case{Sub: "add", Args: map[string]string{"ts": i64(ts), "tn": i64(int64(tn)), "ds": i64(ds), "dn": i64(int64(dn))}}
 	}, func(c *Case) error { return checkC17(ctx, c) })
 
-	ctx.CheckRapid("addstd", per(60000, 3000000), func(rt *rapid.T) *Case {
+	ctx.CheckRapid("addstd", per(500000, 8000000), func(rt *rapid.T) *Case {
 		ts := genTSSeconds().Draw(rt, "ts")
 		tn := genNanos().Draw(rt, "tn")
 		s := rapid.OneOf(rapid.Int64(), rapid.Int64Range(-3*e9, 3*e9), rapid.SampledFrom([]int64{0, 1, -1, math.MaxInt64, math.MinInt64, math.MinInt64 + 1, e9, -e9, int64(-tn), int64(e9 - tn), int64(-tn) - 1})).Draw(rt, "std")
 		return &Case{Sub: "addstd", Args: map[string]string{"ts": i64(ts), "tn": i64(int64(tn)), "std": i64(s)}}
 	}, func(c *Case) error { return checkC17(ctx, c) })
 
-	ctx.CheckRapid("overflow", per(40000, 1000000), func(rt *rapid.T) *Case {
+	ctx.CheckRapid("overflow", per(300000, 4000000), func(rt *rapid.T) *Case {
 		edge := rapid.SampledFrom([]int64{math.MaxInt64, math.MinInt64}).Draw(rt, "edge")
 		off := rapid.OneOf(rapid.Int64Range(0, 2*maxDur), rapid.Int64Range(0, 3)).Draw(rt, "off")
 		ts := edge
@@ -106,7 +106,7 @@ func runC17(ctx *Ctx) {
 		return &Case{Sub: "overflow", Args: map[string]string{"ts": i64(ts), "tn": i64(int64(tn)), "ds": i64(ds), "dn": i64(int64(dn))}}
 	}, func(c *Case) error { return checkC17(ctx, c) })
 
-	ctx.CheckRapid("compare", per(60000, 2000000), func(rt *rapid.T) *Case {
+	ctx.CheckRapid("compare", per(500000, 6000000), func(rt *rapid.T) *Case {
 		a := map[string]string{}
 		base := rapid.OneOf(genTSSeconds(), rapid.Int64(), rapid.SampledFrom([]int64{math.MaxInt64, math.MinInt64})).Draw(rt, "base")
 		for _, k := range []string{"a", "b", "c"} {
